@@ -2,7 +2,7 @@
    Pointer level (Layer B): the owning iterators move entries out of their buckets; the model tracks the
    ownership of every payload, and reading or dropping a payload that is not owned is a fault.
    Abstract level (Layer A): the repaired Drain empties the cache when it is created. *)
-Require Import LruV.B.TakingB LruV.A.LedgerA LruV.B.StepB LruV.B.RefineLemmas LruV.B.CloneB.
+Require Import LruV.B.TakingB LruV.A.LedgerA LruV.B.StepB LruV.B.RefineLemmas LruV.B.CloneB LruV.B.TotalB.
 
 (* Any run of a taking iterator (any pattern, any prefix, from either end) never reads a moved-out or
    uninitialised payload, moves out exactly the buckets it yielded, each once, and leaves every other
@@ -47,8 +47,13 @@ Proof. exact into_iter_refines. Qed.
 Theorem C17_drop_pointer_level : forall b, bB_drop b = do_drop (absB b).
 Proof. exact drop_refines. Qed.
 
+(* ... and that run never faults: on a coherent structure the owning iterator always returns a result *)
+Theorem C17_into_iter_no_fault : forall b kind pat f, RIg (bg b) -> exists r, bB_into_iter b kind pat f = Some r.
+Proof. exact into_iter_total. Qed.
+
 Print Assumptions C17_taking_run.
 Print Assumptions C17_drain_forget.
 Print Assumptions C17_into_iter_forget.
 Print Assumptions C17_into_iter_pointer_level.
 Print Assumptions C17_drop_pointer_level.
+Print Assumptions C17_into_iter_no_fault.
